@@ -625,7 +625,14 @@ def random_form(rng, big=False) -> dict:
             e["qtype"] = rng.choice(["text", "integer", "note", "text"])
         elems.append(e)
     # ${references} to other questions inside texts of questions (they need <output>; a message with one goes to itext)
-    qnames = [e["name"] for e in elems if e["etype"] in ("q", "sel")]
+    # the same name in different groups is legal while nothing references it
+    for j, e in enumerate(elems):
+        if e["etype"] != "g" and e.get("parent") is not None and rng.random() < 0.3:
+            cands = [x["name"] for x in elems[:j] if x["etype"] != "g" and x.get("parent") != e["parent"]]
+            if cands:
+                e["name"] = rng.choice(cands)
+    allnames = [e["name"] for e in elems]
+    qnames = [e["name"] for e in elems if e["etype"] in ("q", "sel") and allnames.count(e["name"]) == 1]
     if qnames and rng.random() < 0.4:
         for e in elems:
             if e["etype"] == "g":
@@ -833,3 +840,58 @@ def ref_message_family():
                     if dl:
                         form["dl_setting" if dl[0] == "s" else "dl_arg"] = dl[1]
                     yield form
+
+
+def same_name_family():
+    """Directed family: the same element name in different groups (legal while unreferenced) — every one of them carrying media
+    and/or translated cells.  Layouts: top-level q + g0/q; g0/q + g1/q; g0/q + g1/q + top-level q.  Cell shapes per
+    occurrence ∈ {unsuffixed image, fr image + label, fr label + unsuffixed hint, fr audio + en label}."""
+    shapes = {
+        "mi": lambda i: {("label", None): marker("S", i, "label", None), ("image", None): marker("S", i, "image", None)},
+        "mf": lambda i: {("label", None): marker("S", i, "label", None), ("image", "fr"): marker("S", i, "image", "fr")},
+        "lf": lambda i: {("label", "fr"): marker("S", i, "label", "fr"), ("hint", None): marker("S", i, "hint", None)},
+        "af": lambda i: {("label", "en"): marker("S", i, "label", "en"), ("audio", "fr"): marker("S", i, "audio", "fr")},
+    }
+    import itertools as it
+    layouts = [(None, "g0"), ("g0", "g1"), ("g0", "g1", None)]
+    for lay in layouts:
+        for combo in it.product(list(shapes), repeat=len(lay)):
+            for gname in ("q", "grp"):
+                elems, seen_groups, i = [], [], 0
+                # grouped occurrences first (each group closed before the next), the top-level one last
+                order = [p for p in lay if p is not None] + [p for p in lay if p is None]
+                shp = dict(zip(order, combo)) if len(set(order)) == len(order) else None
+                for parent, sh in zip(order, combo):
+                    if parent is not None:
+                        glabel = {("label", None): marker("S", 10 + i, "label", None)}
+                        if gname == "grp" and i == 0:
+                            glabel[("image", "fr")] = marker("S", 10 + i, "image", "fr")
+                        elems.append({"etype": "g", "name": parent, "parent": None, "cells": glabel})
+                    elems.append({"etype": "q", "name": "same", "parent": parent, "qtype": "text", "cells": shapes[sh](i)})
+                    i += 1
+                yield {"style": "::", "elems": elems, "choices": []}
+
+
+def long_list_family():
+    """Directed family: long choice lists whose only translated / media choice comes late (boundary sizes around 100, and
+    a late row in a longer list); every other choice has a plain label."""
+    combos = [(n, late, feat) for n, late in ((101, 100), (150, 149), (99, 98), (100, 99), (150, 100), (120, 60))
+              for feat in ("label_fr", "image", "audio_fr")]
+    # the two boundary shapes every run starts with: first row past 100 translated; last row of a long list with media
+    combos = [(101, 100, "label_fr"), (150, 149, "image")] + [c for c in combos if c not in ((101, 100, "label_fr"), (150, 149, "image"))]
+    for n, late, feat in combos:
+        if True:
+            choices = []
+            for i in range(n):
+                cells = {("label", None): marker("C", i, "label", None)}
+                if i == late:
+                    if feat == "label_fr":
+                        cells[("label", "fr")] = marker("C", i, "label", "fr")
+                    elif feat == "image":
+                        cells[("image", None)] = marker("C", i, "image", None)
+                    else:
+                        cells[("audio", "fr")] = marker("C", i, "audio", "fr")
+                choices.append({"list": "l0", "name": f"o{i}", "cells": cells})
+            e = {"etype": "sel", "name": "q0", "parent": None, "list": "l0", "seltype": "select_one",
+                 "cells": {("label", None): "QL0"}}
+            yield {"style": "::", "elems": [e], "choices": choices}
